@@ -293,7 +293,9 @@ def run(pid, tier):
 def replay(pid, path):
     payload = json.load(open(path))
     ctx = Ctx(pid, "quick")
-    if payload.get("kind") == "seq":
+    if payload.get("kind") == "seq" and "crash" in payload:
+        run_seq_crashsafe(ctx, [payload["program"]], payload["spec"], payload.get("aspects_of", pid), "replay")
+    elif payload.get("kind") == "seq":
         run_seq(ctx, [payload["program"]], payload["spec"], payload.get("aspects_of", pid), "replay")
     else:
         raise Inconclusive("unknown replay kind")
@@ -708,6 +710,35 @@ KEY_CATALOGUE = ["string", "int", "int8", "int16", "int32", "int64", "uint8", "u
                  "complex128", "bool", "pointer", "array", "strarray", "padstruct", "nested", "any", "keyer"]
 
 
+def run_seq_crashsafe(ctx, progs, spec, prop, label):
+    """C10: 'no valid key makes an operation panic'. A panic inside an operation is recorded by the harness as an observation; a fatal
+    runtime error kills the harness process - that is behaviour of the code under test too (the same harness passes on the unchanged
+    tree), so the crashing program is isolated and reported."""
+    try:
+        return run_seq(ctx, progs, spec, prop, label)
+    except Inconclusive as e:
+        msg = str(e)
+        if "fatal error" not in msg and "panic:" not in msg and "SIGSEGV" not in msg:
+            raise
+    sc = ctx.scratch()
+    d = lib.mktemp("verif-crash-")
+    survivors = []
+    reported = 0
+    for i, p in enumerate(progs):
+        pin, out = os.path.join(d, "p%d.json" % i), os.path.join(d, "t%d.ndjson" % i)
+        json.dump([p], open(pin, "w"))
+        r = sc.run("seq", inp=pin, out=out, check=False)
+        if r.returncode == 0:
+            survivors.append(p)
+            continue
+        if reported < 5:
+            crash = [l for l in r.stdout.splitlines() if "fatal error" in l or l.startswith("panic:")][:1]
+            ctx.violation({"kind": "seq", "spec": spec, "aspects_of": prop, "program": p, "crash": r.stdout[-3000:], "event": {"op": "crash"}},
+                          "%s: program %s crashed the process: %s" % (label, p.get("note"), crash[0] if crash else r.stdout[-200:]))
+            reported += 1
+    return run_seq(ctx, survivors, spec, prop, label + " (programs that did not crash)")
+
+
 def check_c10(ctx):
     rng = random.Random(lib.seed() * 257 + 3)
     nper = 4 if not ctx.thorough else 40
@@ -724,7 +755,7 @@ def check_c10(ctx):
                 elif hasher == "collide-bucket":
                     p["pin"] = {"keys": {k: [5, (j % 100) + 1] for j, k in enumerate(keys)}, "avoid": []}
                 progs.append(p)
-        run_seq(ctx, progs, "Trace_MapSeq", "C10", "MapOf key-type catalogue, %s hasher" % hasher)
+        run_seq_crashsafe(ctx, progs, "Trace_MapSeq", "C10", "MapOf key-type catalogue, %s hasher" % hasher)
     # CacheOf over the same catalogue (default hasher)
     crng = random.Random(lib.seed() * 263 + 1)
     cprogs = []
@@ -733,7 +764,7 @@ def check_c10(ctx):
             nk = 2 if kt == "bool" else 6
             p = gen.cache_program(crng, "CacheOf", "cat:" + kt, "string", unit=1, length=60, nkeys=nk, note="cache %s#%d" % (kt, i))
             cprogs.append(p)
-    run_seq(ctx, cprogs, "Trace_CacheSeq", "C10", "CacheOf key-type catalogue")
+    run_seq_crashsafe(ctx, cprogs, "Trace_CacheSeq", "C10", "CacheOf key-type catalogue")
     ctx.cov["key_type_catalogue"] = KEY_CATALOGUE
     ctx.assumptions += ["the quantifier over key types is carried by the finite catalogue listed in evidence; each abstract key is presented in two == representations alternately (fresh string memory, +0/-0, dirty struct padding, separately boxed interface values), pointees are mutated by Scribble steps",
                         "TLA+ has no Go types: MapSem judges on abstract key names, i.e. results must depend on the == class only; NaN keys are excluded by the property"]
